@@ -5,10 +5,13 @@ import vlib
 ASSUME = [
     "TLC proves J2T(dump(T2J(v))) = v on the abstract functions over the conversion universe (the two specifications are mutually consistent)",
     "domain of the property: no unknown fields, finite doubles, valid UTF-8 strings, JSON-representable map keys, matching option pairs (Int642String+String2Int64, NoBase64Binary both sides, WriteDefaultField off)",
+    "Protobuf side: equality of messages is the equality of the reference implementation's structural views (protobuf-go decodes both); default options on both converters",
     "JSON text -> structure by the harness' strict reader; numbers by strconv",
 ]
 RULE = ("cases = every value of MC_J2T's universe (for which TLC checks the spec-level inverse law) + seeded random descriptor graphs and conforming values; each runs "
-        "t2j -> j2t -> t2j on the real converters; TLC validates the intermediate JSON against T2J, the byte-for-byte identity of the round trip and the equality of the two JSON documents")
+        "t2j -> j2t -> t2j on the real converters; TLC validates the intermediate JSON against T2J, the byte-for-byte identity of the round trip and the equality of the two JSON documents.  "
+        "Protobuf side: TLC checks J2P(P2J-canonical(m)) = m on the message universe (MC_J2P); every universe message and seeded random reference messages (finite floats, key kinds both converters declare, "
+        "strings stretched across length-prefix boundaries) run p2j -> j2p -> p2j; TLC validates the intermediate JSON against P2J, the reference's view of the bytes coming back against the original message, and the equality of the two JSON documents (Trace_PRoundTrip)")
 
 
 def run(R):
@@ -42,6 +45,29 @@ def run(R):
                 e = json.loads(ln)
                 R.samples.append(dict(kind="round-trip", b=e.get("b"), json=e.get("json", "")[:300]))
     R.validate("Trace_RoundTrip", tr2, reset_events=("Desc",), timeout=3000)
+    # ---- Protobuf side ----
+    mp = R.model_check("MC_J2P", "MC_J2P_quick.cfg" if q else "MC_J2P_thorough.cfg", timeout=3000, workers=8)
+    schema = [r for r in mp["records"] if r.get("tag") == "schema"][0]["schema"]
+    mp["records"] = None
+    mq = R.model_check("MC_P2J", "MC_P2J_quick.cfg" if q else "MC_P2J_thorough.cfg", timeout=3000, workers=8)
+    seenb, pcases = set(), []
+    for r in mq["records"]:
+        if r.get("tag") == "case" and tuple(r["b"]) not in seenb:
+            seenb.add(tuple(r["b"]))
+            pcases.append(r)
+    mq["records"] = None
+    cf2 = os.path.join(R.scratch, "c13p-cases.ndjson")
+    with open(cf2, "w") as f:
+        f.write(json.dumps(dict(schema=schema)) + "\n")
+        for c in pcases:
+            f.write(json.dumps(dict(expect=c["expect"], b=c["b"])) + "\n")
+    tr3 = os.path.join(R.scratch, "c13p-a.ndjson")
+    R.drive("c13p", "out=" + tr3, "cases=" + cf2, timeout=3000)
+    R.validate("Trace_PRoundTrip", tr3, reset_events=("PSchema",), timeout=3000)
+    tr4 = os.path.join(R.scratch, "c13p-b.ndjson")
+    R.drive("c13p", "out=" + tr4, "n=%d" % (300 if q else 15000), "seed=%d" % R.seed, timeout=3000)
+    R.validate("Trace_PRoundTrip", tr4, reset_events=("PSchema",), timeout=3000)
+    R.extra_cov["tlc_proto_messages_replayed"] = len(pcases)
     return vlib.finish(R, "model_checking", RULE, ASSUME)
 
 
@@ -51,6 +77,10 @@ def replay(R, path):
     with open(cf, "w") as f:
         f.write(json.dumps(rec["case"]) + "\n")
     tr = os.path.join(R.scratch, "replay-out.ndjson")
+    if "|PRT|" in rec.get("fingerprint", ""):
+        R.drive("c13p", "out=" + tr, "cases=" + cf)
+        R.validate("Trace_PRoundTrip", tr, reset_events=("PSchema",), batches=1)
+        return vlib.finish(R, "model_checking", RULE, ASSUME)
     R.drive("c13", "out=" + tr, "cases=" + cf)
     R.validate("Trace_RoundTrip", tr, reset_events=("Desc",), batches=1)
     return vlib.finish(R, "model_checking", RULE, ASSUME)
